@@ -82,6 +82,12 @@ where
                 o.label("part:steered");
                 check(c, fam, o)
             });
+            // data blocks of generated kinds (padding look-alikes, zero, copies, multiples of the generator ...)
+            let strat = crate::gens::block_lookalike_case();
+            jc.run_prop(16 << 20, &strat, per / 5, |(c, _)| c.to_json(), |(c, fam), o| {
+                o.label("part:block_lookalikes");
+                check(c, fam, o)
+            });
             // realistic payloads with everything automatic (or only level / mask chosen)
             let strat = (crate::gens::realistic_payload(), proptest::prelude::any::<u16>()).prop_map(|(input, sel)| {
                 let level = if sel & 1 == 0 { None } else { Some(refmodel::tables::Level::from_index((sel as usize >> 1) % 4)) };
